@@ -151,12 +151,16 @@ def gen_case(rng):
     n = rng.randint(0, 6)
     ids = [rng.randrange(len(TABLE)) for _ in range(n)]
     fail = rng.choice([None, None] + list(range(n + 1)))
-    kind = rng.choice(['async:gen', 'async:gen', 'async:iter', 'async:list', 'async:range', 'sync:agen', 'sync:agen'])
+    kind = rng.choice(['async:gen', 'async:gen', 'async:iter', 'async:list', 'async:range', 'async:reiter',
+                       'sync:agen', 'sync:agen'])
     if kind in ('async:list', 'async:range', 'async:iter'):
         fail = None
     if kind == 'async:range':
         ids = list(range(n))
     delays = [rng.choice([0, 0, 1, 3]) for _ in range(n + 1)]
+    if kind == 'async:reiter':
+        # an iterable that is not an iterator (so it takes the inline fast path) and may fail part-way
+        delays = [0] * (n + 1)
     cons_delay = rng.choice([0, 0, 2])
     return {'kind': kind, 'ids': ids, 'fail': fail, 'delays': delays, 'cons_delay': cons_delay}
 
@@ -223,8 +227,12 @@ def run_case(case, seed, pct=0, choices=None):
                             res['ticks'] += 1
                     t = loop.create_task(ticker())
                     k = case['kind']
+                    class ReIter:
+                        def __iter__(self):
+                            return src()
                     source = (src() if k == 'async:gen' else iter([TABLE[e] for e in ids]) if k == 'async:iter'
-                              else [TABLE[e] for e in ids] if k == 'async:list' else range(len(ids)))
+                              else [TABLE[e] for e in ids] if k == 'async:list' else ReIter() if k == 'async:reiter'
+                              else range(len(ids)))
                     try:
                         async for x in A.to_async_iter(source):
                             res['got'].append(x)
@@ -284,7 +292,7 @@ def judge(case, r):
         total = sum(case['delays'][:len(exp) + (0 if case['fail'] is not None else 0)])
         if total >= 3 and r['ticks'] < total - 2:
             return 'blocked-loop', f'the event loop ticked {r["ticks"]} times while the source blocked for {total} virtual seconds'
-    if case['kind'] in ('async:list', 'async:range') and r['nworkers']:
+    if case['kind'] in ('async:list', 'async:range', 'async:reiter') and r['nworkers']:
         return 'fast-path', 'a helper thread was used for a non-iterator iterable'
     return None, None
 
